@@ -18,7 +18,23 @@ Inductive stmt :=
 | SMatMul (dst v off : nat) (o : operand)
 | SIMatMul (v off : nat) (o : operand)
 | SBarrier (v : nat)
-| SCopy (dst v : nat).
+| SCopy (dst v : nat)
+| SAddRange (v : nat) (r : list Z) (o : operand) (merge : bool).   (* c.add(<explicit list/tuple of modes>, x, merge) *)
+
+(* Circuit.add given an explicit range: the range must be the consecutive ascending modes o, o+1, ..., o+k-1 (k the
+   operand's width); then it is the add at offset o.  Anything else (permuted, repeated, gapped, too short or too long,
+   negative) is refused. *)
+Fixpoint zlist_eqb (a b : list Z) : bool :=
+  match a, b with
+  | [], [] => true
+  | x :: a', y :: b' => Z.eqb x y && zlist_eqb a' b'
+  | _, _ => false
+  end.
+Definition range_off (r : list Z) (k : nat) : option nat :=
+  match r with
+  | [] => None
+  | z :: _ => if ((0 <=? z)%Z && zlist_eqb r (map Z.of_nat (seq (Z.to_nat z) k)))%bool then Some (Z.to_nat z) else None
+  end.
 
 Definition to_stmt (x : sx) : stmt :=
   let a i := to_nat (nthx i x) in
@@ -30,6 +46,7 @@ Definition to_stmt (x : sx) : stmt :=
   | 4%Z => SMatMul (a 1%nat) (a 2%nat) (a 3%nat) (to_operand (nthx 4 x))
   | 5%Z => SIMatMul (a 1%nat) (a 2%nat) (to_operand (nthx 3 x))
   | 6%Z => SBarrier (a 1%nat)
+  | 8%Z => SAddRange (a 1%nat) (to_Zs (nthx 2 x)) (to_operand (nthx 3 x)) (to_bool (nthx 4 x))
   | _ => SCopy (a 1%nat) (a 2%nat)
   end.
 
@@ -74,6 +91,14 @@ Definition step (e : env) (s : stmt) : env * bool :=
       | Some c => match barrier c with Some c' => (set e v c', true) | None => (e, false) end
       | None => (e, false) end
   | SCopy dst v => match get e v with Some c => (set e dst c, true) | None => (e, false) end
+  | SAddRange v r o merge =>
+      match get e v, resolve e o with
+      | Some c, Some x =>
+          match range_off r (width x) with
+          | Some off => match add c off x merge with Some c' => (set e v c', true) | None => (e, false) end
+          | None => (e, false)
+          end
+      | _, _ => (e, false) end
   end.
 
 Definition report_var (v : nat) (oc : option (comp QI)) : list sx :=
@@ -87,7 +112,7 @@ Fixpoint report_env (v : nat) (e : env) : list sx :=
 
 Definition stmt_target (s : stmt) : nat :=
   match s with
-  | SNew v _ | SAdd v _ _ _ | SIMatMul v _ _ | SBarrier v => v
+  | SNew v _ | SAdd v _ _ _ | SIMatMul v _ _ | SBarrier v | SAddRange v _ _ _ => v
   | SFloorDiv dst _ _ _ | SMatMul dst _ _ _ | SCopy dst _ => dst
   end.
 (* the model is pure: a statement can only change its target variable, so only that one is reported
